@@ -48,11 +48,17 @@ def run(ctx):
                 if not spinless: cons += ' && fcomm_zero %s %s' % (coq_fop(H), coq_fop_terms(sz_op(n)))
                 add('fermi_hubbard', '(fermi_equiv %s (%s) && fermi_equiv %s (hc_map %s) && %s)' % (coq_fop(H), spec, coq_fop(H), coq_fop(H), cons),
                     {'call': 'fermi_hubbard', 'args': [x, y, t, U, mu, h, periodic, spinless, ph]}, key=(x, y, periodic, spinless, ph))
-                if not ph:
+                if (not ph) or (mu == 0 and h == 0) or True:
+                    # particle-hole convention of the general model replaces every n by n - 1/2 (also in
+                    # the potential / field terms), fermi_hubbard only in the interaction: they coincide for mu = h = 0
+                    if ph:
+                        mu_, h_ = 0.0, 0.0
+                        H = fermi_hubbard(x, y, t, U, mu_, h_, periodic, spinless, ph)
+                    else: mu_, h_ = mu, h
                     lat = HubbardSquareLattice(x, y, periodic=periodic, spinless=spinless)
                     G = FermiHubbardModel(lat, tunneling_parameters=(('neighbor', (0, 0), t),), interaction_parameters=(('neighbor' if spinless else 'onsite', (0, 0), U),),
-                                          potential_parameters=((0, mu),), magnetic_field=h).hamiltonian()
-                    add('general_hubbard', '(fermi_equiv %s %s)' % (coq_fop(G), coq_fop(H)), {'call': 'FermiHubbardModel vs fermi_hubbard', 'args': [x, y, t, U, mu, h, periodic, spinless]}, key=(x, y, periodic, spinless))
+                                          potential_parameters=((0, mu_),), magnetic_field=h_, particle_hole_symmetry=ph).hamiltonian()
+                    add('general_hubbard', '(fermi_equiv %s %s)' % (coq_fop(G), coq_fop(H)), {'call': 'FermiHubbardModel vs fermi_hubbard', 'args': [x, y, t, U, mu_, h_, periodic, spinless, ph]}, key=(x, y, periodic, spinless, ph))
             if x * y <= 6:
                 t, U, mu, V = (float(dy(rng) or 1.0) for _ in range(4))
                 B = bose_hubbard(x, y, t, U, mu, V, periodic)
@@ -64,6 +70,73 @@ def run(ctx):
                 D = mean_field_dwave(x, y, t, delta, mu, periodic)
                 add('mean_field_dwave', '(fermi_equiv %s (dwave_spec %s %s %s %s %s %s) && fermi_equiv %s (hc_map %s))' % (coq_fop(D), cnat(x), cnat(y), cbool(periodic), cC(t), cC(delta), cC(mu), coq_fop(D), coq_fop(D)),
                     {'call': 'mean_field_dwave', 'args': [x, y, t, delta, mu, periodic]}, key=(x, y, periodic))
+    # ---- multi-band FermiHubbardModel against the docstring Hamiltonian assembled here from coordinates
+    from openfermion.utils.lattice import SpinPairs, Spin
+    def nbr_pairs(x, y, periodic):
+        out = []
+        for cy in range(y):
+            for cx in range(x):
+                if cx + 1 < x: out.append(((cx, cy), (cx + 1, cy)))
+                elif periodic and x > 2: out.append(((cx, cy), (0, cy)))
+                if cy + 1 < y: out.append(((cx, cy), (cx, cy + 1)))
+                elif periodic and y > 2: out.append(((cx, cy), (cx, 0)))
+        return out
+    for _ in range(N(40, 300)):
+        x, y = rng.choice([(1, 2), (2, 1), (2, 2), (1, 3), (3, 1), (2, 3), (3, 2)]); periodic = rng.random() < 0.5; spinless = rng.random() < 0.4; k = rng.choice([1, 2, 2])
+        if x * y * k * (1 if spinless else 2) > 16: continue
+        lat = HubbardSquareLattice(x, y, n_dofs=k, periodic=periodic, spinless=spinless)
+        spins = [None] if spinless else [Spin.UP, Spin.DOWN]
+        so = lambda site, a, s: lat.to_spin_orbital_index(lat.to_site_index(site), a, 0 if s is None else s)
+        sites = [(cx, cy) for cy in range(y) for cx in range(x)]; nb = nbr_pairs(x, y, periodic)
+        spec = {}
+        def addt(t, c):
+            if c != 0: spec[t] = spec.get(t, 0) + c
+        def hopp(i, j, c): addt(((i, 1), (j, 0)), c); addt(((j, 1), (i, 0)), c)
+        def nn(i, j, c): addt(((i, 1), (i, 0), (j, 1), (j, 0)), c)
+        tun, inter, pot = [], [], []
+        dofp = [(a, b) for a in range(k) for b in range(a, k)]
+        for et in ('onsite', 'neighbor'):
+            for a, b in dofp:
+                if et == 'onsite' and a == b: continue
+                if rng.random() < 0.6:
+                    c = float(dy(rng) or 1.0); tun.append((et, (a, b), c))
+                    pairs = [(s, s) for s in sites] if et == 'onsite' else (nb if a == b else nb + [(j, i) for i, j in nb])
+                    for i, j in pairs:
+                        for s in spins: hopp(so(i, a, s), so(j, b, s), -c)
+        for et in ('onsite', 'neighbor'):
+            for a, b in dofp:
+                if spinless and et == 'onsite' and a == b: continue
+                if rng.random() < 0.6:
+                    c = float(dy(rng) or 1.0)
+                    sp = SpinPairs.ALL if spinless else rng.choice([SpinPairs.SAME, SpinPairs.DIFF, SpinPairs.ALL])
+                    if et == 'onsite' and a == b: sp = SpinPairs.DIFF
+                    inter.append((et, (a, b), c, sp))
+                    pairs = [(s, s) for s in sites] if et == 'onsite' else (nb if a == b else nb + [(j, i) for i, j in nb])
+                    for i, j in pairs:
+                        if spinless: nn(so(i, a, None), so(j, b, None), c); continue
+                        if et == 'onsite' and a == b: nn(so(i, a, Spin.UP), so(i, a, Spin.DOWN), c); continue
+                        for s1 in spins:
+                            for s2 in spins:
+                                if (sp == SpinPairs.SAME and s1 != s2) or (sp == SpinPairs.DIFF and s1 == s2): continue
+                                nn(so(i, a, s1), so(j, b, s2), c)
+        for a in range(k):
+            if rng.random() < 0.6:
+                c = float(dy(rng) or 1.0); pot.append((a, c))
+                for i in sites:
+                    for s in spins: addt(((so(i, a, s), 1), (so(i, a, s), 0)), -c)
+        hfield = 0.0 if spinless else float(rng.choice([0.0, 0.5, -1.25]))
+        if hfield:
+            for i in sites:
+                for a in range(k):
+                    addt(((so(i, a, Spin.UP), 1), (so(i, a, Spin.UP), 0)), -hfield); addt(((so(i, a, Spin.DOWN), 1), (so(i, a, Spin.DOWN), 0)), hfield)
+        try:
+            G = FermiHubbardModel(lat, tunneling_parameters=tun, interaction_parameters=inter, potential_parameters=pot, magnetic_field=hfield).hamiltonian()
+        except Exception as e:
+            ctx.violation('C13 general_hubbard_multiband: %s: %s' % (type(e).__name__, e), {'call': 'FermiHubbardModel', 'lattice': [x, y, k, periodic, spinless], 'tunneling': tun, 'interaction': repr(inter), 'potential': pot}); continue
+        n = lat.n_spin_orbitals
+        add('general_hubbard_multiband', '(fermi_equiv %s %s && fermi_equiv %s (hc_map %s) && fcomm_zero %s %s)' % (coq_fop(G), coq_fop_terms(spec), coq_fop(G), coq_fop(G), coq_fop(G), coq_fop_terms(number_op(n))),
+            {'call': 'FermiHubbardModel (multi-band) vs docstring Hamiltonian', 'lattice': [x, y, k, periodic, spinless], 'tunneling': tun, 'interaction': repr(inter), 'potential': pot, 'magnetic_field': hfield},
+            key=(x, y, k, periodic, spinless, repr(tun), repr(inter), repr(pot)))
     ctx.sample({'part': 'fermi_hubbard', 'example': str(fermi_hubbard(2, 2, 1.0, 2.0, 0.5, 0.25, True, False, False))[:400]})
     # ---- RichardsonGaudin: sum_p 2(p+1) N_p + g/2 sum_{p<q} (X_p X_q + Y_p Y_q)
     for n in range(1, N(6, 9)):
